@@ -12,5 +12,6 @@ META = dict(
           "Distinct = sha1 of (workload kind, input rows, option set)."),
     REQUIRED=["steps", "state-comparisons", "reference-checks", "error-transitions", "dfs-runs", "walks"],
     ASSUMPTIONS=ASSUME_COMMON + ["Tree.copy() is used to share DFS prefixes; random walks never copy unless the walk draws it"],
+    HANG_IS_VIOLATION=True,
     BUDGET={"quick": 50.0, "thorough": 900.0},
 )
